@@ -212,7 +212,9 @@ def run_check(prop: str, tier: str, seed: int) -> int:
                 for t in info['theorems']:
                     ax = info['assumptions'].get(t)
                     if ax is None: continue
-                    foreign = [a for a in ax if a.split('.')[-1] not in {x.split('.')[-1] for x in ALLOWED_AXIOMS}]
+                    # kernel primitives (machine integers / binary64 floats) are listed by Print Assumptions but are not axioms of ours
+                    foreign = [a for a in ax if a.split('.')[-1] not in {x.split('.')[-1] for x in ALLOWED_AXIOMS}
+                               and not a.startswith(('PrimFloat.', 'PrimInt63.', 'Uint63.', 'PrimInt63Notations.'))]
                     if not foreign: discharged += 1
                     if ax: axioms_used[t] = ax
                 problems = []
